@@ -135,9 +135,16 @@ LiveSpec == Spec /\ Fairness
 \* (time is bounded by MaxTime in this model, so "eventually completes" is stated up to the horizon: whenever the
 \* clock can no longer advance, nothing whose final timeout lies before the horizon is still outstanding)
 SetToSeq1(S) == IF S = {} THEN <<>> ELSE LET RECURSIVE F(_) F(R) == IF R = {} THEN <<>> ELSE LET x == CHOOSE y \in R : TRUE IN <<x>> \o F(R \ {x}) IN F(S)
-StateJson(o, n, cs, sc, nd, nl, v, rc) ==
-  [out |-> SetToSeq1(DOMAIN o), now |-> n, c2s |-> [t \in Tids |-> cs[t]], s2c |-> [t \in Tids |-> sc[t]],
-   ndup |-> nd, nloss |-> nl, val |-> SetToSeq1(v), rcred |-> rc]
-Emit == PrintT("EDGE " \o ToJson([src |-> StateJson(out, now, c2s, s2c, ndup, nloss, validated, rcred), act |-> act',
-                                  dst |-> StateJson(out', now', c2s', s2c', ndup', nloss', validated', rcred')]))
+RECURSIVE SortedSeq(_)
+SortedSeq(S) == IF S = {} THEN <<>> ELSE LET m == CHOOSE x \in S : \A y \in S : x <= y IN <<m>> \o SortedSeq(S \ {m})
+StateJson(o, n, cs, sc, nd, nl, v, rc, st) ==
+  [out |-> [i \in 1..Cardinality(DOMAIN o) |-> LET t == SortedSeq(DOMAIN o)[i] IN
+              [tid |-> t, to |-> o[t].to, sealed |-> o[t].sealed, idx |-> o[t].idx, lastSend |-> o[t].lastSend, sc |-> o[t].sc, rc |-> o[t].rc]],
+   now |-> n, c2s |-> [i \in 1..Cardinality(Tids) |-> cs[SortedSeq(Tids)[i]]], s2c |-> [i \in 1..Cardinality(Tids) |-> sc[SortedSeq(Tids)[i]]],
+   ndup |-> nd, nloss |-> nl, val |-> SetToSeq1(v), rcred |-> rc, lcred |-> None,
+   stat |-> [i \in 1..Cardinality(Tids) |-> st[SortedSeq(Tids)[i]]],
+   probe |-> IF DOMAIN o = {} THEN "idle" ELSE IF \E t \in DOMAIN o : o[t].rc THEN "skip"
+             ELSE ToString(C!Min({C!Svc(o[t], -1).t : t \in DOMAIN o}))]
+Emit == PrintT("EDGE " \o ToJson([src |-> StateJson(out, now, c2s, s2c, ndup, nloss, validated, rcred, stat), act |-> act',
+                                  dst |-> StateJson(out', now', c2s', s2c', ndup', nloss', validated', rcred', stat')]))
 =============================================================================
